@@ -13,19 +13,22 @@ namespace NotationModel.C01
 /-- what an accepting run looks like -/
 def okObs (i : Input) (p : Desc) : Obs :=
   { accepted := true, outcomeError := some false, payload := some p,
-    returned := if i.kind == .blob then some { p with annotations := [] } else none }
+    returned := match i.kind with
+      | .blob => some { p with annotations := [] }
+      | .oci => if i.viaRegistry then some { i.artifact with annotations := [] } else none }
 
-/-- case analysis of `run` for a non-skip statement: either it rejects, or every check passed -/
-theorem run_cases (i : Input) (hs : i.skip = false) :
-    run i = reject ∨
+/-- case analysis of `core` (verifier.Verify / notation.VerifyBlob) for a non-skip statement: either
+it rejects, or every check passed -/
+theorem core_cases (i : Input) (hs : i.skip = false) :
+    core i = reject ∨
     (i.parseOk = true ∧ i.integrityOk = true ∧ i.payloadTypeOk = true ∧ i.rest = true ∧
       ∃ p, i.decoded = some p ∧ (i.kind = .blob → i.hashSupported = true) ∧
         (match i.kind with
          | .oci => ociEqual p i.artifact = true
          | .blob => blobMismatch p i.artifact = false) ∧
         (i.required.isEmpty = true ∨ metadataOk p i.required = true) ∧
-        run i = okObs i p) := by
-  unfold run okObs
+        core i = okObs i p) := by
+  unfold core okObs
   simp only [hs, Bool.false_eq_true, if_false]
   cases hp : i.parseOk
   · left; simp
@@ -62,6 +65,50 @@ theorem run_cases (i : Input) (hs : i.skip = false) :
           · right; exact ⟨trivial, trivial, trivial, trivial, p, rfl, by simp, by simp [hm], Or.inl rfl, by simp⟩
         · left; simp
 
+/-- what `notation.Verify` has established before it hands a signature to the verifier (non-skip):
+the reference resolved, and a digest reference names the digest of the resolved descriptor -/
+theorem not_refused (i : Input) (hs : i.skip = false) (h : refused i = false) (hr : registry i = true) :
+    i.resolveOk = true ∧ pinnedDigest i = i.artifact.digest := by
+  unfold refused at h
+  unfold pinnedDigest
+  rw [hr] at h
+  simp only [hr, if_true, Bool.true_and]
+  cases hd : i.refDigest with
+  | none => rw [hd] at h; simp at h; exact ⟨h, rfl⟩
+  | some d =>
+    rw [hd] at h
+    simp only [hs, Bool.not_false, Bool.true_and, Bool.or_eq_false_iff, Bool.not_eq_false',
+      bne_eq_false_iff_eq] at h
+    exact ⟨h.1, by simp [h.2]⟩
+
+theorem pinned_direct (i : Input) (hr : registry i = false) : pinnedDigest i = i.artifact.digest := by
+  simp [pinnedDigest, hr]
+
+/-- case analysis of `run`: it rejects, or nothing was refused in front of the verifier and every
+check of the verifier passed -/
+theorem run_cases (i : Input) (hs : i.skip = false) :
+    run i = reject ∨
+    (i.parseOk = true ∧ i.integrityOk = true ∧ i.payloadTypeOk = true ∧ i.rest = true ∧
+      (registry i = true → i.resolveOk = true) ∧ pinnedDigest i = i.artifact.digest ∧
+      ∃ p, i.decoded = some p ∧ (i.kind = .blob → i.hashSupported = true) ∧
+        (match i.kind with
+         | .oci => ociEqual p i.artifact = true
+         | .blob => blobMismatch p i.artifact = false) ∧
+        (i.required.isEmpty = true ∨ metadataOk p i.required = true) ∧
+        run i = okObs i p) := by
+  unfold run
+  cases hf : refused i
+  · simp only [Bool.false_eq_true, if_false]
+    rcases core_cases i hs with h | ⟨h1, h2, h3, h4, p, hd, hh, hm, hmeta, hrun⟩
+    · left; exact h
+    · right
+      refine ⟨h1, h2, h3, h4, ?_, ?_, p, hd, hh, hm, hmeta, hrun⟩
+      · intro hr; exact (not_refused i hs hf hr).1
+      · cases hr : registry i
+        · exact pinned_direct i hr
+        · exact (not_refused i hs hf hr).2
+  · left; simp
+
 theorem metadata_of (p : Desc) (req : List (String × String))
     (h : req.isEmpty = true ∨ metadataOk p req = true) :
     ∀ kv ∈ req, p.annotations.lookup kv.1 = some kv.2 := by
@@ -72,21 +119,79 @@ theorem metadata_of (p : Desc) (req : List (String × String))
   · have := List.all_eq_true.1 h kv hkv
     simpa using this
 
-/-- **C01, OCI**: whenever `verifier.Verify` succeeds under a level other than skip, the envelope
-parses, its signature is valid, the payload is a Notary payload that decodes to a target equal to
-the descriptor under verification (digest, size, media type), every required metadata pair is in
-the signed annotations, and the payload reported is the signed one. -/
+/-- **C01, OCI**: whenever `verifier.Verify` - or `notation.Verify` in front of it - succeeds under a
+level other than skip, the envelope parses, its signature is valid, the payload is a Notary payload
+that decodes to a target equal to the descriptor under verification (digest, size, media type) AND
+naming the digest the caller's reference pins, every required metadata pair is in the signed
+annotations, and the payload reported is the signed one. -/
 theorem ociAccept_sound (i : Input) (hk : i.kind = .oci) (hs : i.skip = false)
     (h : (run i).accepted = true) :
     i.parseOk = true ∧ i.integrityOk = true ∧ i.payloadTypeOk = true ∧ i.rest = true ∧
     ∃ p, i.decoded = some p ∧ (run i).payload = some p ∧
-      p.digest = i.artifact.digest ∧ p.size = i.artifact.size ∧ p.mediaType = i.artifact.mediaType ∧
+      p.digest = i.artifact.digest ∧ p.digest = pinnedDigest i ∧
+      p.size = i.artifact.size ∧ p.mediaType = i.artifact.mediaType ∧
       ∀ kv ∈ i.required, p.annotations.lookup kv.1 = some kv.2 := by
-  rcases run_cases i hs with hr | ⟨h1, h2, h3, h4, p, hd, _, hm, hmeta, hrun⟩
+  rcases run_cases i hs with hr | ⟨h1, h2, h3, h4, _, hpin, p, hd, _, hm, hmeta, hrun⟩
   · rw [hr] at h; simp [reject] at h
   · rw [hk] at hm
     simp only [ociEqual, Bool.and_eq_true, beq_iff_eq] at hm
-    exact ⟨h1, h2, h3, h4, p, hd, by rw [hrun]; rfl, hm.1.2, hm.1.1, hm.2, metadata_of p _ hmeta⟩
+    exact ⟨h1, h2, h3, h4, p, hd, by rw [hrun]; rfl, hm.1.2, by rw [hpin]; exact hm.1.2, hm.1.1, hm.2,
+      metadata_of p _ hmeta⟩
+
+/-- **C01, registry**: when `notation.Verify` succeeds for a DIGEST reference under a level other
+than skip, the accepted signature was made for the digest the reference names - whatever descriptor
+the repository answered with - and the descriptor returned is that of the signed target. -/
+theorem digest_reference_binds (i : Input) (d : String) (hk : i.kind = .oci) (hv : i.viaRegistry = true)
+    (hs : i.skip = false) (hd : i.refDigest = some d) (h : (run i).accepted = true) :
+    i.resolveOk = true ∧
+    ∃ p, i.decoded = some p ∧ p.digest = d ∧ p.size = i.artifact.size ∧ p.mediaType = i.artifact.mediaType ∧
+      (run i).returned = some { p with annotations := [] } := by
+  have hreg : registry i = true := by simp [registry, hk, hv]
+  rcases run_cases i hs with hr | ⟨_, _, _, _, hres, hpin, p, hp, _, hm, _, hrun⟩
+  · rw [hr] at h; simp [reject] at h
+  · rw [hk] at hm
+    simp only [ociEqual, Bool.and_eq_true, beq_iff_eq] at hm
+    have hpd : pinnedDigest i = d := by simp [pinnedDigest, hreg, hd]
+    refine ⟨hres hreg, p, hp, ?_, hm.1.1, hm.2, ?_⟩
+    · rw [hm.1.2, ← hpin, hpd]
+    · rw [hrun]
+      simp only [okObs, hk, hv, if_true]
+      obtain ⟨pm, pd, ps, pa⟩ := p
+      obtain ⟨⟨e1, e2⟩, e3⟩ := hm
+      simp only at e1 e2 e3
+      simp [e1, e2, e3]
+
+/-- **C01, registry**: a repository cannot redirect a digest reference: if `Resolve` answers with a
+descriptor whose digest is not literally the one the reference names (another manifest, or a digest
+of another algorithm), verification fails for EVERY envelope, level, trust store and plugin. -/
+theorem redirected_digest_reference_rejected (i : Input) (d : String) (hk : i.kind = .oci)
+    (hv : i.viaRegistry = true) (hs : i.skip = false) (hd : i.refDigest = some d)
+    (hne : d ≠ i.artifact.digest) : (run i).accepted = false := by
+  have hreg : registry i = true := by simp [registry, hk, hv]
+  have : refused i = true := by
+    simp [refused, hreg, hd, hs, hne]
+  simp [run, this, reject]
+
+/-- an unresolvable reference is never a success (under a non-skip level, or through a Verifier that
+does not answer `SkipVerify`) -/
+theorem unresolved_reference_rejected (i : Input) (hk : i.kind = .oci) (hv : i.viaRegistry = true)
+    (hr : i.resolveOk = false) (hs : i.skip = false ∨ i.refDigest = none) : (run i).accepted = false := by
+  have hreg : registry i = true := by simp [registry, hk, hv]
+  have : refused i = true := by
+    unfold refused
+    rcases hs with hs | hs
+    · cases hd : i.refDigest <;> simp [hreg, hr, hs]
+    · simp [hreg, hr, hs]
+  simp [run, this, reject]
+
+/-- an honest repository is transparent: when the reference resolves to the descriptor it names,
+`notation.Verify` decides exactly as `verifier.Verify` does for that descriptor -/
+theorem honest_registry_transparent (i : Input) (hr : i.resolveOk = true)
+    (hd : i.refDigest = none ∨ i.refDigest = some i.artifact.digest) : run i = core i := by
+  have : refused i = false := by
+    unfold refused
+    rcases hd with hd | hd <;> simp [hd, hr]
+  simp [run, this]
 
 /-- **C01, blob**: the same for `notation.VerifyBlob`: digest and size always, the media type
 whenever the caller states one; the descriptor returned is the verified target. -/
@@ -99,7 +204,7 @@ theorem blobAccept_sound (i : Input) (hk : i.kind = .blob) (hs : i.skip = false)
       (i.artifact.mediaType = "" ∨ p.mediaType = i.artifact.mediaType) ∧
       (∀ kv ∈ i.required, p.annotations.lookup kv.1 = some kv.2) ∧
       (run i).returned = some { p with annotations := [] } := by
-  rcases run_cases i hs with hr | ⟨h1, h2, h3, h4, p, hd, hh, hm, hmeta, hrun⟩
+  rcases run_cases i hs with hr | ⟨h1, h2, h3, h4, _, _, p, hd, hh, hm, hmeta, hrun⟩
   · rw [hr] at h; simp [reject] at h
   · rw [hk] at hm
     simp only [blobMismatch, Bool.or_eq_false_iff, bne_eq_false_iff_eq, Bool.and_eq_false_iff] at hm
@@ -112,12 +217,16 @@ theorem blobAccept_sound (i : Input) (hk : i.kind = .blob) (hs : i.skip = false)
 
 /-- **C01, integrity cannot be overridden**: if the envelope does not parse, its signature is not
 valid or the payload type is wrong, verification fails for EVERY remaining input - whatever the
-other validations, the artifact, the metadata, the kind say (only a skip statement accepts). -/
+other validations, the artifact, the reference, the repository, the metadata, the kind say (only a
+skip statement accepts). -/
 theorem integrity_not_overridable (i : Input) (hs : i.skip = false)
     (h : i.parseOk = false ∨ i.integrityOk = false ∨ i.payloadTypeOk = false) :
     (run i).accepted = false := by
   unfold run
-  rcases h with h | h | h <;> simp [hs, h, reject]
+  cases refused i
+  · unfold core
+    rcases h with h | h | h <;> simp [hs, h, reject]
+  · simp [reject]
 
 /-- The same statement composed with the model of `processSignature` (C02): for every scenario of
 the remaining validations - every level, override, trust store content, plugin situation and
@@ -135,19 +244,20 @@ theorem mismatch_survives_metadata (i : Input) (p : Desc) (hs : i.skip = false) 
     (run i).accepted = false := by
   apply Bool.eq_false_iff.2
   intro hacc
-  obtain ⟨_, _, _, _, q, hq, _, h1, h2, h3, _⟩ := ociAccept_sound i hk hs hacc
+  obtain ⟨_, _, _, _, q, hq, _, h1, _, h2, h3, _⟩ := ociAccept_sound i hk hs hacc
   rw [hd] at hq
   cases hq
   rcases hm with h | h | h <;> contradiction
 
-/-- a missing or different metadata pair is never accepted -/
+/-- a missing or different metadata pair is never accepted - whatever the other pairs, keys and
+values look like (the comparison is by key and by value, never by a joined text) -/
 theorem missing_metadata_rejected (i : Input) (p : Desc) (hs : i.skip = false)
     (hd : i.decoded = some p) (kv : String × String) (hkv : kv ∈ i.required)
     (hmiss : p.annotations.lookup kv.1 ≠ some kv.2) : (run i).accepted = false := by
   apply Bool.eq_false_iff.2
   intro hacc
   cases hk : i.kind
-  · obtain ⟨_, _, _, _, q, hq, _, _, _, _, hall⟩ := ociAccept_sound i hk hs hacc
+  · obtain ⟨_, _, _, _, q, hq, _, _, _, _, _, hall⟩ := ociAccept_sound i hk hs hacc
     rw [hd] at hq; cases hq
     exact hmiss (hall kv hkv)
   · obtain ⟨_, _, _, _, _, q, hq, _, _, _, _, hall, _⟩ := blobAccept_sound i hk hs hacc
@@ -158,53 +268,88 @@ theorem missing_metadata_rejected (i : Input) (p : Desc) (hs : i.skip = false)
 theorem model_holds (i : Input) : Holds i (run i) = true := by
   unfold Holds clauses
   cases hs : i.skip
-  · rcases run_cases i hs with hr | ⟨h1, h2, h3, h4, p, hd, hh, hm, hmeta, hrun⟩
+  · rcases run_cases i hs with hr | ⟨h1, h2, h3, h4, hres, hpin, p, hd, hh, hm, hmeta, hrun⟩
     · simp [Clauses.holds, hr, reject]
     · have hmd := metadata_of p _ hmeta
       cases hk : i.kind
       · rw [hk] at hm
         simp only [ociEqual, Bool.and_eq_true, beq_iff_eq] at hm
-        simp [Clauses.holds, hrun, okObs, hs, h1, h2, h3, h4, hd, hk, hm]
-        intro a b hab; exact hmd (a, b) hab
+        cases hv : i.viaRegistry
+        · simp [Clauses.holds, hrun, okObs, hs, h1, h2, h3, h4, hd, hk, hm, hpin, registry, hv]
+          intro a b hab; exact hmd (a, b) hab
+        · have hres' : i.resolveOk = true := hres (by simp [registry, hk, hv])
+          simp [Clauses.holds, hrun, okObs, hs, h1, h2, h3, h4, hd, hk, hm, hpin, registry, hv, hres']
+          intro a b hab; exact hmd (a, b) hab
       · rw [hk] at hm
         simp only [blobMismatch, Bool.or_eq_false_iff, bne_eq_false_iff_eq, Bool.and_eq_false_iff] at hm
         obtain ⟨⟨e1, e2⟩, e3⟩ := hm
-        simp [Clauses.holds, hrun, okObs, hs, h1, h2, h3, h4, hd, hk, e1.symm, e2.symm]
+        simp [Clauses.holds, hrun, okObs, hs, h1, h2, h3, h4, hd, hk, e1.symm, e2.symm, hpin, registry]
         refine ⟨?_, ?_⟩
         · rcases e3 with e3 | e3
           · left; simpa using e3
           · right; exact (by simpa using e3 : i.artifact.mediaType = p.mediaType).symm
         · intro a b hab; exact hmd (a, b) hab
-  · simp [Clauses.holds, hs, run]
+  · cases hf : refused i <;> simp [Clauses.holds, hs, run, core, hf, reject]
 
 /-! ### non-vacuity -/
 
 def sampleDesc : Desc := { mediaType := "m", digest := "sha256:aa", size := 3, annotations := [("k", "v")] }
 
+def sampleInput : Input :=
+  { kind := .oci, skip := false, parseOk := true, integrityOk := true, payloadTypeOk := true,
+    rest := true, decoded := some sampleDesc, artifact := { sampleDesc with annotations := [] },
+    hashSupported := true, required := [("k", "v")], reader := "", viaRegistry := false,
+    refDigest := none, resolveOk := true, refForm := "", plugin := false }
+
 /-- an accepted OCI verification with required metadata -/
-example : (run { kind := .oci, skip := false, parseOk := true, integrityOk := true, payloadTypeOk := true,
-                 rest := true, decoded := some sampleDesc, artifact := { sampleDesc with annotations := [] },
-                 hashSupported := true, required := [("k", "v")], reader := "", viaRegistry := false, plugin := false }).accepted = true := by decide
+example : (run sampleInput).accepted = true := by decide
 
 /-- an accepted blob verification where the caller states no media type -/
-example : (run { kind := .blob, skip := false, parseOk := true, integrityOk := true, payloadTypeOk := true,
-                 rest := true, decoded := some sampleDesc,
-                 artifact := { sampleDesc with mediaType := "", annotations := [] },
-                 hashSupported := true, required := [], reader := "", viaRegistry := false, plugin := false }).returned = some { sampleDesc with annotations := [] } := by
+example : (run { sampleInput with
+      kind := .blob, artifact := { sampleDesc with mediaType := "", annotations := [] }, required := [] }).returned =
+    some { sampleDesc with annotations := [] } := by
   decide
 
 /-- `Holds` refutes an acceptance of a signature made for another artifact -/
-example : Holds { kind := .oci, skip := false, parseOk := true, integrityOk := true, payloadTypeOk := true,
-                  rest := true, decoded := some { sampleDesc with digest := "sha256:bb" },
-                  artifact := { sampleDesc with annotations := [] }, hashSupported := true, required := [], reader := "", viaRegistry := false, plugin := false }
+example : Holds { sampleInput with decoded := some { sampleDesc with digest := "sha256:bb" }, required := [] }
     { accepted := true, outcomeError := some false, payload := some { sampleDesc with digest := "sha256:bb" },
       returned := none } = false := by decide
 
-/-- how the blob reader delivers its bytes and whether an approving identity plugin is involved are
-not inputs of the decision -/
-theorem concretisation_irrelevant (i : Input) (r : String) (p v : Bool) :
-    run { i with reader := r, plugin := p, viaRegistry := v } = run i := by
-  simp [run]
+/-- registry: a digest reference that resolves to the descriptor it names is accepted and the
+descriptor is returned -/
+example : run { sampleInput with viaRegistry := true, refDigest := some "sha256:aa" } =
+    { accepted := true, outcomeError := some false, payload := some sampleDesc,
+      returned := some { sampleDesc with annotations := [] } } := by decide
+
+/-- registry: the repository answers a `sha512` reference with the `sha256` descriptor of another,
+validly signed manifest: refused by the model ... -/
+example : (run { sampleInput with viaRegistry := true, refDigest := some "sha512:cc" }).accepted = false := by decide
+
+/-- ... and `Holds` refutes an implementation that accepts it: the signed target is not the artifact
+the reference pins -/
+example : Holds { sampleInput with viaRegistry := true, refDigest := some "sha512:cc" }
+    { accepted := true, outcomeError := some false, payload := some sampleDesc,
+      returned := some { sampleDesc with annotations := [] } } = false := by decide
+
+/-- `Holds` refutes an acceptance where a required key `labels=tier` is "found" by re-splitting the
+signed pair (`labels`, `tier=gold`) -/
+example : Holds { sampleInput with
+      decoded := some { sampleDesc with annotations := [("labels", "tier=gold")] }, required := [("labels=tier", "gold")] }
+    { accepted := true, outcomeError := some false,
+      payload := some { sampleDesc with annotations := [("labels", "tier=gold")] }, returned := none } = false := by decide
+
+/-- how the blob reader delivers its bytes, whether an approving identity plugin is involved and how
+the repository part of the reference is spelled are not inputs of the decision -/
+theorem concretisation_irrelevant (i : Input) (r f : String) (p : Bool) :
+    run { i with reader := r, plugin := p, refForm := f } = run i := by
+  simp [run, core, refused, registry]
+
+/-- outside the registry entry point the reference and the repository's answer are not inputs
+either -/
+theorem reference_irrelevant_outside_registry (i : Input) (hv : i.viaRegistry = false)
+    (d : Option String) (ok : Bool) :
+    run { i with refDigest := d, resolveOk := ok } = run i := by
+  simp [run, core, refused, registry, hv]
 
 /-! ### tie to the translated source -/
 
